@@ -2,36 +2,43 @@
 
 // Contracts for github.com/basecomplextech/baselibrary/encoding/compactint (dependency;
 // the source is loaded from the module cache and VERIFIED against these contracts).
+// Clauses tagged [C02] are the weak bounds the panic-freedom proofs need; clauses tagged
+// [!C02] are the exact functional results used by every other property.
 package ext
 
 //@ package github.com/basecomplextech/baselibrary/encoding/compactint
 
 //@ func ReverseSize
 //@   safety[C02]
-//@   ensures result == ite(varintSize(mem(b), lo(b), hi(b)) < 0, 0, varintSize(mem(b), lo(b), hi(b)))
+//@   ensures[C02] 0 <= result && result <= len(b) && result <= 9
+//@   ensures[!C02] result == ite(varintSize(mem(b), lo(b), hi(b)) < 0, 0, varintSize(mem(b), lo(b), hi(b)))
 
 //@ func ReverseUint32
 //@   safety[C02]
 //@   let n = varintSize(mem(b), lo(b), hi(b))
-//@   ensures len(b) > 0 && b[len(b)-1] == 255 ==> result1 == 0 - 1 && result0 == 0
-//@   ensures (len(b) == 0 || b[len(b)-1] != 255) && n < 0 ==> result1 == 0 && result0 == 0
-//@   ensures n >= 1 && n <= 5 ==> result1 == n && result0 == varintVal(mem(b), hi(b), n)
+//@   ensures[C02] 0 - 1 <= result1 && result1 <= len(b) && result1 <= 5
+//@   ensures[!C02] len(b) > 0 && b[len(b)-1] == 255 ==> result1 == 0 - 1 && result0 == 0
+//@   ensures[!C02] (len(b) == 0 || b[len(b)-1] != 255) && n < 0 ==> result1 == 0 && result0 == 0
+//@   ensures[!C02] n >= 1 && n <= 5 ==> result1 == n && result0 == varintVal(mem(b), hi(b), n)
 
 //@ func ReverseUint64
 //@   safety[C02]
 //@   let n = varintSize(mem(b), lo(b), hi(b))
-//@   ensures n < 0 ==> result1 == 0 && result0 == 0
-//@   ensures n >= 1 ==> result1 == n && result0 == varintVal(mem(b), hi(b), n)
+//@   ensures[C02] 0 <= result1 && result1 <= len(b) && result1 <= 9
+//@   ensures[!C02] n < 0 ==> result1 == 0 && result0 == 0
+//@   ensures[!C02] n >= 1 ==> result1 == n && result0 == varintVal(mem(b), hi(b), n)
 
 //@ func ReverseInt32
 //@   safety[C02]
 //@   let n = varintSize(mem(b), lo(b), hi(b))
-//@   ensures len(b) > 0 && b[len(b)-1] == 255 ==> result1 == 0 - 1 && result0 == 0
-//@   ensures (len(b) == 0 || b[len(b)-1] != 255) && n < 0 ==> result1 == 0 && result0 == 0
-//@   ensures n >= 1 && n <= 5 ==> result1 == n && result0 == unzigzag(varintVal(mem(b), hi(b), n))
+//@   ensures[C02] 0 - 1 <= result1 && result1 <= len(b) && result1 <= 5
+//@   ensures[!C02] len(b) > 0 && b[len(b)-1] == 255 ==> result1 == 0 - 1 && result0 == 0
+//@   ensures[!C02] (len(b) == 0 || b[len(b)-1] != 255) && n < 0 ==> result1 == 0 && result0 == 0
+//@   ensures[!C02] n >= 1 && n <= 5 ==> result1 == n && result0 == unzigzag(varintVal(mem(b), hi(b), n))
 
 //@ func ReverseInt64
 //@   safety[C02]
 //@   let n = varintSize(mem(b), lo(b), hi(b))
-//@   ensures n < 0 ==> result1 == 0 && result0 == 0
-//@   ensures n >= 1 ==> result1 == n && result0 == unzigzag(varintVal(mem(b), hi(b), n))
+//@   ensures[C02] 0 <= result1 && result1 <= len(b) && result1 <= 9
+//@   ensures[!C02] n < 0 ==> result1 == 0 && result0 == 0
+//@   ensures[!C02] n >= 1 ==> result1 == n && result0 == unzigzag(varintVal(mem(b), hi(b), n))
